@@ -190,5 +190,12 @@ def _pin_p7a():
     return None
 
 
-PINNED = {"P8-setitem-negative-position": _pin_p8,
+def _pin_p43():
+    f = Fiber([1, 3], [2, 4])
+    f.updatePayloads(lambda i, c, p: p.value + 1)
+    bad = [p for p in f.payloads if not isinstance(p, Payload)]
+    return f"updatePayloads(lambda i, c, p: p.value + 1) stored unboxed leaf payloads {bad}" if bad else None
+
+
+PINNED = {"P43-updatePayloads-stores-plain-value-unboxed": _pin_p43, "P8-setitem-negative-position": _pin_p8,
           "P7a-fiber-assignment-overwrites-rank-default": _pin_p7a}
